@@ -256,6 +256,11 @@ def build(p):
         state["ex"] = ex
         top = ex
         built = [None] + [t._d for t in taps[1:]] + [ex] if taps else [None]
+        # lock roles for the recorded lock programs (C04): every executor of the stack names the locks created on
+        # its behalf
+        E.SCHED.register_owner(taps[0]._d if taps else ex, "x0")
+        for idx in range(1, len(built)):
+            E.SCHED.register_owner(built[idx], "x%d" % idx)
         for (idx, path, rname) in p.get("roles", []):
             from .common import role_attr
             role_attr(built[idx], path, rname)
